@@ -236,3 +236,606 @@ Example search_runs :
   (search less [10; 25; 21; 30; 41] 22, search less [10; 25; 21; 30; 41] 5, search less [10; 25; 21; 30; 41] 99,
    search less [] 3) = (1, 0, 5, 0).
 Proof. vm_compute. reflexivity. Qed.
+
+(* ------------------------------------------------------------------ heap facts (from Heap/Lemmas.v) *)
+Section HeapFacts.
+  Context {T IS : Type}.
+  Variable zero : T.
+  Variable less : T -> T -> bool.
+  Variable on_index : T -> Z -> IS -> IS.
+
+  Lemma hf_new initial s0 :
+    exists h, Heap.Model.new less on_index initial s0 = Ok h /\ Permutation initial (ha h) /\
+              (strict_weak less -> heap_ordered less (ha h)).
+  Proof.
+    destruct (new_spec less on_index initial s0) as [c1 [Hs [E Ho]]].
+    eexists. split; [exact E|]. cbn [ha]. split; [|exact Ho].
+    apply swaps_perm in Hs. exact Hs.
+  Qed.
+
+  Lemma hf_push x (h : heap T IS) :
+    exists h', Heap.Model.push less on_index x h = Ok h' /\ Permutation (x :: ha h) (ha h') /\
+               (strict_weak less -> heap_ordered less (ha h) -> heap_ordered less (ha h')).
+  Proof.
+    destruct (push_spec less on_index x h) as [c' [E [Hs Ho]]].
+    eexists. split; [exact E|]. cbn [ha]. split; [|exact Ho].
+    apply swaps_perm in Hs. cbn [fst] in Hs.
+    eapply perm_trans; [apply Permutation_cons_append|exact Hs].
+  Qed.
+
+  Lemma hf_pop (h : heap T IS) : ha h <> [] ->
+    exists item h', Heap.Model.pop zero less on_index h = Ok (item, h') /\
+                    Permutation (ha h) (item :: ha h') /\
+                    (strict_weak less -> heap_ordered less (ha h) ->
+                     heap_ordered less (ha h') /\ forall y, In y (ha h) -> less y item = false).
+  Proof.
+    intros Hne.
+    destruct (zget_in_range (ha h) 0) as [item Hitem].
+    { destruct (ha h) as [|a t]; [congruence|]. rewrite zlen_cons. pose proof (zlen_nonneg t). lia. }
+    destruct (pop_spec zero less on_index h item Hitem) as [lst [c' [Hlst [E [Hs Ho]]]]].
+    exists item. eexists. split; [exact E|]. cbn [ha]. split.
+    - eapply perm_trans; [apply (cut_perm (ha h) 0 item lst Hitem Hlst)|].
+      apply perm_skip. apply swaps_perm in Hs. exact Hs.
+    - intros SWO Hord. split; [apply Ho; assumption|].
+      intros y Hy. destruct (In_zget (ha h) y Hy) as [i Hi].
+      exact (root_min less SWO (ha h) item Hord Hitem i y Hi).
+  Qed.
+
+  Lemma len_zero_iff (h : heap T IS) : Heap.Model.len h =? 0 = true <-> ha h = [].
+  Proof.
+    unfold Heap.Model.len. rewrite Z.eqb_eq. unfold zlen.
+    destruct (ha h) as [|a t]; simpl; split; intros H; try reflexivity; try discriminate; lia.
+  Qed.
+End HeapFacts.
+
+(* ------------------------------------------------------------------ Merge *)
+Lemma vs_less_swo less : strict_weak less -> strict_weak (vs_less less).
+Proof.
+  intros SWO. unfold vs_less. split; [|split].
+  - intros a. apply (sw_irrefl less SWO).
+  - intros a b c. apply (sw_trans less SWO).
+  - intros a b c. apply (sw_incomp less SWO).
+Qed.
+
+(* the heads currently held by the heap: cur[i] = Some v iff (v, i0 + i) is in the heap *)
+Fixpoint tagged (cur : list (option Z)) (i : Z) : list (Z * Z) :=
+  match cur with
+  | [] => []
+  | None :: r => tagged r (i + 1)
+  | Some v :: r => (v, i) :: tagged r (i + 1)
+  end.
+
+Lemma tagged_In : forall cur i0 v s,
+    In (v, s) (tagged cur i0) -> i0 <= s /\ nth_error cur (Z.to_nat (s - i0)) = Some (Some v).
+Proof.
+  induction cur as [|o r IH]; intros i0 v s H; [destruct H|].
+  assert (Hrec : In (v, s) (tagged r (i0 + 1)) -> i0 <= s /\ nth_error (o :: r) (Z.to_nat (s - i0)) = Some (Some v)).
+  { intros H'. destruct (IH _ _ _ H') as [H1 H2]. split; [lia|].
+    replace (Z.to_nat (s - i0)) with (S (Z.to_nat (s - (i0 + 1)))) by lia. exact H2. }
+  destruct o as [w|]; cbn [tagged] in H; [|exact (Hrec H)].
+  destruct H as [H|H]; [|exact (Hrec H)].
+  injection H as -> ->. split; [lia|]. replace (s - s) with 0 by lia. reflexivity.
+Qed.
+
+Lemma tagged_take : forall cur i0 n v,
+    nth_error cur n = Some (Some v) ->
+    Permutation (tagged cur i0) ((v, i0 + Z.of_nat n) :: tagged (upd cur n None) i0).
+Proof.
+  induction cur as [|o r IH]; intros i0 n v H; [destruct n; discriminate|].
+  destruct n as [|n]; cbn [nth_error] in H.
+  - injection H as ->. cbn [upd tagged]. replace (i0 + Z.of_nat 0) with i0 by lia. apply Permutation_refl.
+  - specialize (IH (i0 + 1) n v H).
+    replace (i0 + 1 + Z.of_nat n) with (i0 + Z.of_nat (S n)) in IH by lia.
+    cbn [upd]. destruct o as [w|]; cbn [tagged].
+    + eapply perm_trans; [apply perm_skip; exact IH|apply perm_swap].
+    + exact IH.
+Qed.
+
+Lemma tagged_put : forall cur i0 n x, (n < length cur)%nat ->
+    Permutation (tagged (upd cur n (Some x)) i0) ((x, i0 + Z.of_nat n) :: tagged (upd cur n None) i0).
+Proof.
+  induction cur as [|o r IH]; intros i0 n x H; [simpl in H; lia|].
+  destruct n as [|n].
+  - cbn [upd tagged]. replace (i0 + Z.of_nat 0) with i0 by lia. apply Permutation_refl.
+  - cbn [length] in H. specialize (IH (i0 + 1) n x ltac:(lia)).
+    replace (i0 + 1 + Z.of_nat n) with (i0 + Z.of_nat (S n)) in IH by lia.
+    cbn [upd]. destruct o as [w|]; cbn [tagged].
+    + eapply perm_trans; [apply perm_skip; exact IH|apply perm_swap].
+    + exact IH.
+Qed.
+
+Lemma upd_upd {A} (l : list A) n x y : upd (upd l n x) n y = upd l n y.
+Proof. revert n; induction l as [|h t IH]; intros [|n]; simpl; auto. f_equal. apply IH. Qed.
+
+Lemma upd_same {A} (l : list A) n x : nth_error l n = Some x -> upd l n x = l.
+Proof.
+  revert n; induction l as [|h t IH]; intros [|n] H; simpl in *; try discriminate; auto.
+  - injection H as ->. reflexivity.
+  - f_equal. apply IH. exact H.
+Qed.
+
+Lemma nth_error_upd {A} (l : list A) n m x :
+  nth_error (upd l n x) m = if Nat.eqb n m then (if Nat.ltb n (length l) then Some x else None) else nth_error l m.
+Proof.
+  destruct (Nat.eqb_spec n m) as [->|Hne].
+  - destruct (Nat.ltb_spec m (length l)) as [Hlt|Hge].
+    + apply nth_error_upd_same. exact Hlt.
+    + apply nth_error_None. rewrite upd_length. exact Hge.
+  - apply nth_error_upd_other. exact Hne.
+Qed.
+
+Lemma join_concat ins : join ins = concat ins.
+Proof. induction ins as [|l r IH]; simpl; [reflexivity|]. rewrite IH. reflexivity. Qed.
+
+Lemma join_take : forall (ins : list (list Z)) n x t,
+    nth_error ins n = Some (x :: t) -> Permutation (join ins) (x :: join (upd ins n t)).
+Proof.
+  induction ins as [|l r IH]; intros n x t H; [destruct n; discriminate|].
+  destruct n as [|n]; cbn [nth_error] in H.
+  - injection H as ->. cbn [upd join]. apply Permutation_refl.
+  - cbn [upd join]. specialize (IH n x t H).
+    eapply perm_trans; [apply Permutation_app_head; exact IH|].
+    apply Permutation_sym. apply Permutation_middle.
+Qed.
+
+Lemma join_In ins y : In y (join ins) <-> exists l, In l ins /\ In y l.
+Proof. rewrite join_concat. apply in_concat. Qed.
+
+Lemma nondecr_cons_inv (less : Z -> Z -> bool) x t :
+  nondecreasing less (x :: t) -> nondecreasing less t /\ forall y, In y t -> less y x = false.
+Proof.
+  intros H. inversion H as [|x' t' Ht Hall]. split; [exact Ht|]. rewrite Forall_forall in Hall. exact Hall.
+Qed.
+
+Section Merge.
+  Variable less : Z -> Z -> bool.
+  Hypothesis SWO : strict_weak less.
+
+  Let noidx := vs_noidx.
+  Notation pop := (Heap.Model.pop (0, 0) (vs_less less) vs_noidx).
+  Notation push := (Heap.Model.push (vs_less less) vs_noidx).
+
+  (* invariant of the merge iterator *)
+  Record minv (cur : list (option Z)) (st : mstate) : Prop := {
+    mi_len : length cur = length (fst st);
+    mi_heap : Permutation (ha (snd st)) (tagged cur 0);
+    mi_ord : heap_ordered (vs_less less) (ha (snd st));
+    mi_done : forall i, nth_error cur i = Some None -> nth_error (fst st) i = Some [];
+  }.
+
+  (* additionally, when the inputs are sorted *)
+  Definition msorted (cur : list (option Z)) (st : mstate) : Prop :=
+    (forall l, In l (fst st) -> nondecreasing less l) /\
+    (forall i c l y, nth_error cur i = Some (Some c) -> nth_error (fst st) i = Some l -> In y l -> less y c = false).
+
+  (* the multiset still to be yielded *)
+  Definition remaining (st : mstate) : list Z := map fst (ha (snd st)) ++ join (fst st).
+
+  Lemma merge_next_spec cur st : minv cur st ->
+    (ha (snd st) = [] /\ merge_next less st = Ok (None, st) /\ remaining st = []) \/
+    (exists v cur' st', merge_next less st = Ok (Some v, st') /\ minv cur' st' /\
+        Permutation (remaining st) (v :: remaining st') /\
+        (forall y, In y (map fst (ha (snd st))) -> less y v = false) /\
+        (msorted cur st -> msorted cur' st' /\ forall y, In y (remaining st') -> less y v = false)).
+  Proof.
+    intros [Hlen Hheap Hord Hdone]. destruct st as [ins h]. cbn [fst snd] in *.
+    unfold merge_next. destruct (Heap.Model.len h =? 0) eqn:El.
+    - left. apply len_zero_iff in El. split; [exact El|]. split; [reflexivity|].
+      unfold remaining. cbn [fst snd]. rewrite El. cbn [map app].
+      (* every input is exhausted *)
+      rewrite El in Hheap. apply Permutation_nil in Hheap.
+      assert (Hall : forall l, In l ins -> l = []).
+      { intros l Hl. destruct (In_nth_error _ _ Hl) as [i Hi].
+        assert (Hc : nth_error cur i = Some None).
+        { destruct (nth_error cur i) as [[c|]|] eqn:Ec.
+          - exfalso. pose proof (tagged_take cur 0 i c Ec) as Hp. rewrite Hheap in Hp.
+            apply Permutation_nil in Hp. discriminate.
+          - reflexivity.
+          - apply nth_error_None in Ec. assert (Hi' : nth_error ins i <> None) by congruence.
+            apply nth_error_Some in Hi'. lia. }
+        specialize (Hdone i Hc). congruence. }
+      clear -Hall. induction ins as [|l r IH]; [reflexivity|].
+      cbn [join]. rewrite (Hall l (or_introl eq_refl)). cbn [app]. apply IH.
+      intros l' Hl'. apply Hall. right. exact Hl'.
+    - right.
+      assert (Hne : ha h <> []).
+      { intros E. apply (len_zero_iff h) in E. congruence. }
+      destruct (hf_pop (0, 0) (vs_less less) vs_noidx h Hne) as [item [h1 [Epop [Hperm Hmin]]]].
+      destruct (Hmin (vs_less_swo less SWO) Hord) as [Hord1 Hmin1]. clear Hmin.
+      rewrite Epop. cbn [rbind]. destruct item as [v src]. cbn [snd fst].
+      (* the popped entry is the head of source src *)
+      assert (Hin : In (v, src) (tagged cur 0)).
+      { eapply Permutation_in; [exact Hheap|]. eapply Permutation_in; [apply Permutation_sym; exact Hperm|].
+        left. reflexivity. }
+      destruct (tagged_In _ _ _ _ Hin) as [Hsrc0 Hcur].
+      replace (src - 0) with src in Hcur by lia.
+      set (n := Z.to_nat src) in *.
+      assert (Hsrcn : src = 0 + Z.of_nat n) by (unfold n; lia).
+      assert (Hn : (n < length cur)%nat) by (apply nth_error_Some; congruence).
+      (* heap without the popped entry *)
+      assert (Hh1 : Permutation (ha h1) (tagged (upd cur n None) 0)).
+      { apply (Permutation_cons_inv (a := (v, src))).
+        eapply perm_trans; [apply Permutation_sym; exact Hperm|].
+        eapply perm_trans; [exact Hheap|]. rewrite Hsrcn at 1. apply tagged_take. exact Hcur. }
+      assert (Hminv : forall y, In y (map fst (ha h)) -> less y v = false).
+      { intros y Hy. apply in_map_iff in Hy. destruct Hy as [[y' s'] [<- Hy]]. exact (Hmin1 _ Hy). }
+      destruct (nth_error ins n) as [[|x t]|] eqn:Eins.
+      + (* source exhausted *)
+        exists v, (upd cur n None), (ins, h1). split; [reflexivity|]. split; [|split; [|split]].
+        * constructor; cbn [fst snd].
+          -- rewrite upd_length. exact Hlen.
+          -- exact Hh1.
+          -- exact Hord1.
+          -- intros i Hi. rewrite nth_error_upd in Hi. destruct (Nat.eqb_spec n i) as [Eni|Hne']; [subst i|].
+             ++ exact Eins.
+             ++ apply Hdone. exact Hi.
+        * unfold remaining. cbn [fst snd].
+          change (v :: map fst (ha h1) ++ join ins) with (map fst ((v, src) :: ha h1) ++ join ins).
+          apply Permutation_app_tail. apply Permutation_map. exact Hperm.
+        * exact Hminv.
+        * intros [Hs1 Hs2]. split.
+          -- split; [exact Hs1|]. cbn [fst]. intros i c l y Hi Hl Hy.
+             rewrite nth_error_upd in Hi. destruct (Nat.eqb_spec n i) as [Eni|Hne']; [subst i|].
+             ++ destruct (n <? length cur)%nat; discriminate.
+             ++ eapply Hs2; eassumption.
+          -- intros y Hy. unfold remaining in Hy. cbn [fst snd] in Hy. apply in_app_or in Hy.
+             destruct Hy as [Hy|Hy].
+             ++ apply Hminv. apply in_map_iff in Hy. destruct Hy as [p [<- Hp]].
+                apply in_map. eapply Permutation_in; [apply Permutation_sym; exact Hperm|]. right. exact Hp.
+             ++ apply join_In in Hy. destruct Hy as [l [Hl Hy]].
+                destruct (In_nth_error _ _ Hl) as [i Hi].
+                destruct (Nat.eq_dec i n) as [->|Hne'].
+                { rewrite Eins in Hi. injection Hi as <-. destruct Hy. }
+                destruct (nth_error cur i) as [[c|]|] eqn:Ec.
+                ** apply (sw_incomp less SWO y c v).
+                   --- eapply Hs2; eassumption.
+                   --- apply Hminv. apply in_map_iff. exists (c, 0 + Z.of_nat i). split; [reflexivity|].
+                       eapply Permutation_in; [apply Permutation_sym; exact Hheap|].
+                       eapply Permutation_in; [apply Permutation_sym; apply (tagged_take cur 0 i c Ec)|].
+                       left. reflexivity.
+                ** rewrite (Hdone i Ec) in Hi. injection Hi as <-. destruct Hy.
+                ** apply nth_error_None in Ec. assert (Hi' : nth_error ins i <> None) by congruence.
+                   apply nth_error_Some in Hi'. lia.
+      + (* refill from source src *)
+        destruct (hf_push (vs_less less) vs_noidx (x, src) h1) as [h2 [Epush [Hperm2 Hord2]]].
+        rewrite Epush. cbn [rbind].
+        exists v, (upd cur n (Some x)), (upd ins n t, h2). split; [reflexivity|]. split; [|split; [|split]].
+        * constructor; cbn [fst snd].
+          -- rewrite !upd_length. exact Hlen.
+          -- eapply perm_trans; [apply Permutation_sym; exact Hperm2|].
+             eapply perm_trans; [apply perm_skip; exact Hh1|].
+             rewrite Hsrcn at 1. apply Permutation_sym. apply tagged_put. exact Hn.
+          -- apply Hord2; [apply vs_less_swo; exact SWO|exact Hord1].
+          -- intros i Hi. rewrite nth_error_upd in Hi. rewrite nth_error_upd.
+             destruct (Nat.eqb_spec n i) as [Eni|Hne']; [subst i|].
+             ++ destruct (n <? length cur)%nat; discriminate.
+             ++ apply Hdone. exact Hi.
+        * unfold remaining. cbn [fst snd].
+          eapply perm_trans.
+          { apply Permutation_app; [apply Permutation_map; exact Hperm|apply (join_take ins n x t Eins)]. }
+          cbn [map fst app]. apply perm_skip.
+          eapply perm_trans; [apply Permutation_sym; apply Permutation_middle|].
+          change (x :: map fst (ha h1) ++ join (upd ins n t)) with (map fst ((x, src) :: ha h1) ++ join (upd ins n t)).
+          apply Permutation_app_tail. apply Permutation_map. exact Hperm2.
+        * exact Hminv.
+        * intros [Hs1 Hs2].
+          assert (Hxt : nondecreasing less (x :: t)).
+          { apply Hs1. eapply nth_error_In. exact Eins. }
+          assert (Hvx : less x v = false).
+          { eapply Hs2; [exact Hcur|exact Eins|left; reflexivity]. }
+          split.
+          -- split; cbn [fst].
+             ++ intros l Hl. destruct (In_nth_error _ _ Hl) as [i Hi]. rewrite nth_error_upd in Hi.
+                destruct (Nat.eqb_spec n i) as [Eni|Hne']; [subst i|].
+                ** destruct (n <? length ins)%nat; [|discriminate]. injection Hi as <-.
+                   exact (proj1 (nondecr_cons_inv less x t Hxt)).
+                ** apply Hs1. eapply nth_error_In. exact Hi.
+             ++ intros i c l y Hi Hl Hy. rewrite nth_error_upd in Hi. rewrite nth_error_upd in Hl.
+                destruct (Nat.eqb_spec n i) as [Eni|Hne']; [subst i|].
+                ** destruct (n <? length cur)%nat; [|discriminate]. injection Hi as <-.
+                   destruct (n <? length ins)%nat; [|discriminate]. injection Hl as <-.
+                   exact (proj2 (nondecr_cons_inv less x t Hxt) y Hy).
+                ** eapply Hs2; eassumption.
+          -- intros y Hy.
+             (* everything remaining is in remaining st, and not less than v *)
+             assert (Hold : In y (map fst (ha h)) \/ In y (join ins)).
+             { unfold remaining in Hy. cbn [fst snd] in Hy. apply in_app_or in Hy. destruct Hy as [Hy|Hy].
+               - apply in_map_iff in Hy. destruct Hy as [p [<- Hp]].
+                 eapply Permutation_in in Hp; [|apply Permutation_sym; exact Hperm2].
+                 destruct Hp as [<-|Hp].
+                 + right. apply join_In. exists (x :: t). split; [eapply nth_error_In; exact Eins|left; reflexivity].
+                 + left. apply in_map. eapply Permutation_in; [apply Permutation_sym; exact Hperm|]. right. exact Hp.
+               - right. apply join_In in Hy. destruct Hy as [l [Hl Hy]]. apply join_In.
+                 destruct (In_nth_error _ _ Hl) as [i Hi]. rewrite nth_error_upd in Hi.
+                 destruct (Nat.eqb_spec n i) as [Eni|Hne']; [subst i|].
+                 + destruct (n <? length ins)%nat; [|discriminate]. injection Hi as <-.
+                   exists (x :: t). split; [eapply nth_error_In; exact Eins|right; exact Hy].
+                 + exists l. split; [eapply nth_error_In; exact Hi|exact Hy]. }
+             destruct Hold as [Hy'|Hy']; [apply Hminv; exact Hy'|].
+             apply join_In in Hy'. destruct Hy' as [l [Hl Hyl]].
+             destruct (In_nth_error _ _ Hl) as [i Hi].
+             destruct (nth_error cur i) as [[c|]|] eqn:Ec.
+             ++ apply (sw_incomp less SWO y c v).
+                ** eapply Hs2; eassumption.
+                ** apply Hminv. apply in_map_iff. exists (c, 0 + Z.of_nat i). split; [reflexivity|].
+                   eapply Permutation_in; [apply Permutation_sym; exact Hheap|].
+                   eapply Permutation_in; [apply Permutation_sym; apply (tagged_take cur 0 i c Ec)|].
+                   left. reflexivity.
+             ++ rewrite (Hdone i Ec) in Hi. injection Hi as <-. destruct Hyl.
+             ++ apply nth_error_None in Ec. assert (Hi' : nth_error ins i <> None) by congruence.
+                apply nth_error_Some in Hi'. lia.
+      + (* src out of range: impossible *)
+        exfalso. apply nth_error_None in Eins. lia.
+  Qed.
+
+  Lemma merge_drain_spec : forall fuel cur st, minv cur st -> (length (remaining st) < fuel)%nat ->
+    exists out, merge_drain less fuel st = Ok out /\ Permutation out (remaining st) /\
+                (msorted cur st -> nondecreasing less out).
+  Proof.
+    induction fuel as [|fuel IH]; intros cur st Hinv Hfuel; [lia|].
+    cbn [merge_drain].
+    destruct (merge_next_spec cur st Hinv) as [[_ [E Hrem]]|[v [cur' [st' [E [Hinv' [Hperm [_ Hsorted]]]]]]]].
+    - rewrite E. cbn [rbind fst]. exists []. split; [reflexivity|]. rewrite Hrem.
+      split; [apply Permutation_refl|intros _; constructor].
+    - rewrite E. cbn [rbind fst snd].
+      assert (Hf : (length (remaining st') < fuel)%nat).
+      { apply Permutation_length in Hperm. cbn [length] in Hperm. lia. }
+      destruct (IH cur' st' Hinv' Hf) as [out [Eo [Hpo Hso]]].
+      rewrite Eo. cbn [rbind]. exists (v :: out). split; [reflexivity|]. split.
+      + eapply perm_trans; [apply perm_skip; exact Hpo|apply Permutation_sym; exact Hperm].
+      + intros Hms. destruct (Hsorted Hms) as [Hms' Hge]. constructor; [apply Hso; exact Hms'|].
+        rewrite Forall_forall. intros y Hy. apply Hge. eapply Permutation_in; [exact Hpo|exact Hy].
+  Qed.
+
+  Definition heads (ins : list (list Z)) : list (option Z) := map (fun l => hd_error l) ins.
+
+  Lemma merge_initial_spec : forall ins i,
+      merge_initial ins i = (tagged (heads ins) i, map (fun l => tl l) ins).
+  Proof.
+    induction ins as [|l r IH]; intros i; [reflexivity|].
+    cbn [merge_initial]. rewrite IH. destruct l as [|x t]; reflexivity.
+  Qed.
+
+  Lemma join_heads_tails : forall ins i,
+      Permutation (map fst (tagged (heads ins) i) ++ join (map (fun l => tl l) ins)) (join ins).
+  Proof.
+    induction ins as [|l r IH]; intros i; [apply Permutation_refl|].
+    destruct l as [|x t]; cbn [heads map hd_error tagged tl join fst app].
+    - apply IH.
+    - apply perm_skip. specialize (IH (i + 1)).
+      eapply perm_trans; [|apply Permutation_app_head; exact IH].
+      rewrite app_assoc. rewrite app_assoc. apply Permutation_app_tail. apply Permutation_app_comm.
+  Qed.
+
+  Theorem merge_spec_ : forall ins,
+    exists out, merge less ins = Ok out /\ Permutation out (join ins) /\
+                ((forall l, In l ins -> nondecreasing less l) -> nondecreasing less out).
+  Proof.
+    intros ins. unfold merge, merge_new. rewrite merge_initial_spec.
+    destruct (hf_new (vs_less less) vs_noidx (tagged (heads ins) 0) tt) as [h [Enew [Hperm Hord]]].
+    rewrite Enew. cbn [rbind].
+    set (st := (map (fun l => tl l) ins, h)).
+    assert (Hinv : minv (heads ins) st).
+    { unfold st. constructor; cbn [fst snd].
+      - unfold heads. rewrite !map_length. reflexivity.
+      - apply Permutation_sym. exact Hperm.
+      - apply Hord. apply vs_less_swo. exact SWO.
+      - intros i Hi. unfold heads in Hi. rewrite nth_error_map in Hi. rewrite nth_error_map.
+        destruct (nth_error ins i) as [[|x t]|]; cbn in *; try discriminate. reflexivity. }
+    assert (Hrem : Permutation (remaining st) (join ins)).
+    { unfold remaining, st. cbn [fst snd].
+      eapply perm_trans; [|apply (join_heads_tails ins 0)].
+      apply Permutation_app_tail. apply Permutation_map. apply Permutation_sym. exact Hperm. }
+    assert (Hfuel : (length (remaining st) < S (length (join ins)))%nat).
+    { apply Permutation_length in Hrem. lia. }
+    destruct (merge_drain_spec _ _ _ Hinv Hfuel) as [out [E [Hpo Hso]]].
+    exists out. split; [exact E|]. split; [eapply perm_trans; [exact Hpo|exact Hrem]|].
+    intros Hsorted. apply Hso. unfold st. split; cbn [fst].
+    - intros l Hl. apply in_map_iff in Hl. destruct Hl as [l0 [<- Hl0]].
+      specialize (Hsorted l0 Hl0). destruct l0 as [|x t]; [constructor|]. exact (proj1 (nondecr_cons_inv less x t Hsorted)).
+    - intros i c l y Hi Hl Hy. unfold heads in Hi. rewrite nth_error_map in Hi, Hl.
+      destruct (nth_error ins i) as [l0|] eqn:El0; [|discriminate]. cbn in Hi, Hl.
+      injection Hl as <-. destruct l0 as [|x t]; [discriminate|]. cbn in Hi. injection Hi as ->.
+      assert (Hs : nondecreasing less (c :: t)) by (apply Hsorted; eapply nth_error_In; exact El0).
+      exact (proj2 (nondecr_cons_inv less c t Hs) y Hy).
+  Qed.
+End Merge.
+
+Theorem merge_spec : forall less ins, strict_weak less ->
+    exists out, merge less ins = Ok out /\
+                Permutation out (join ins) /\
+                ((forall l, In l ins -> nondecreasing less l) -> nondecreasing less out).
+Proof. intros less ins SWO. apply merge_spec_. exact SWO. Qed.
+
+Theorem merge_slices_spec : forall less outcap ins, strict_weak less ->
+    exists out, merge_slices less outcap ins = Ok (out, (0 <? zlen (join ins)) && (zlen (join ins) <=? outcap)) /\
+                Permutation out (join ins) /\
+                ((forall l, In l ins -> nondecreasing less l) -> nondecreasing less out).
+Proof.
+  intros less outcap ins SWO. destruct (merge_spec less ins SWO) as [out [E [Hp Hs]]].
+  exists out. unfold merge_slices. rewrite E. cbn [rbind]. split; [reflexivity|]. split; assumption.
+Qed.
+
+Example merge_runs :
+  let less := fun a b => Z.quot a 10 <? Z.quot b 10 in
+  merge less [[10; 21; 30]; []; [11; 12; 35]; [5]] = Ok [5; 10; 11; 12; 21; 35; 30] /\
+  merge_slices less 8 [[10; 21]; [11; 12]] = Ok ([10; 11; 12; 21], true) /\
+  merge less [] = Ok [].
+Proof. vm_compute. repeat split; reflexivity. Qed.
+
+(* ------------------------------------------------------------------ MinK *)
+Lemma SS_snoc {A} (R : A -> A -> Prop) l m :
+  StronglySorted R l -> (forall y, In y l -> R y m) -> StronglySorted R (l ++ [m]).
+Proof.
+  induction l as [|a t IH]; intros Hs Hall; cbn [app].
+  - constructor; [constructor|constructor].
+  - inversion Hs as [|a' t' Ht Hat]; subst. constructor.
+    + apply IH; [exact Ht|]. intros y Hy. apply Hall. right. exact Hy.
+    + rewrite Forall_forall in *. intros y Hy. apply in_app_or in Hy. destruct Hy as [Hy|[<-|[]]].
+      * apply Hat. exact Hy.
+      * apply Hall. left. reflexivity.
+Qed.
+
+Lemma SS_rev {A} (R : A -> A -> Prop) l :
+  StronglySorted (fun a b => R b a) l -> StronglySorted R (rev l).
+Proof.
+  induction l as [|a t IH]; intros Hs; cbn [rev]; [constructor|].
+  inversion Hs as [|a' t' Ht Hat]; subst. apply SS_snoc; [apply IH; exact Ht|].
+  rewrite Forall_forall in Hat. intros y Hy. apply Hat. apply in_rev. exact Hy.
+Qed.
+
+Section MinK.
+  Variable less : Z -> Z -> bool.
+  Hypothesis SWO : strict_weak less.
+  Variable k : Z.
+
+  Let rl := reverse_less less.
+  Let K := Z.max k 0.
+
+  Lemma rl_swo : strict_weak rl.
+  Proof. exact (proj1 (reverse_less_spec less SWO)). Qed.
+
+  Record kinv (h : zheap_) (rest seen : list Z) : Prop := {
+    ki_ord : heap_ordered rl (ha h);
+    ki_perm : Permutation (ha h ++ rest) seen;
+    ki_len : zlen (ha h) = Z.min K (zlen seen);
+    ki_min : forall r o, In r rest -> In o (ha h) -> less r o = false;
+  }.
+
+  Lemma zlen_perm {A} (l m : list A) : Permutation l m -> zlen l = zlen m.
+  Proof. intros H. apply Permutation_length in H. unfold zlen. lia. Qed.
+
+  Lemma mink_loop_spec : forall items h rest seen, kinv h rest seen ->
+      exists h' rest', mink_loop less k items h = Ok h' /\ kinv h' rest' (seen ++ items).
+  Proof.
+    induction items as [|x t IH]; intros h rest seen Hinv.
+    - exists h, rest. split; [reflexivity|]. rewrite app_nil_r. exact Hinv.
+    - destruct Hinv as [Hord Hperm Hlen Hmin]. cbn [mink_loop].
+      destruct (hf_push rl no_index x h) as [h1 [Epush [Hp1 Ho1]]].
+      fold rl. rewrite Epush. cbn [rbind].
+      specialize (Ho1 rl_swo Hord).
+      assert (Hlen1 : zlen (ha h1) = zlen (ha h) + 1).
+      { rewrite <- (zlen_perm _ _ Hp1). rewrite zlen_cons. lia. }
+      assert (Hseen : zlen seen = zlen (ha h) + zlen rest).
+      { rewrite <- (zlen_perm _ _ Hperm). apply zlen_app. }
+      pose proof (zlen_nonneg rest) as Hrest0. pose proof (zlen_nonneg (ha h)) as Hh0.
+      replace (seen ++ x :: t) with ((seen ++ [x]) ++ t) by (rewrite <- app_assoc; reflexivity).
+      unfold Heap.Model.len. destruct (zlen (ha h1) >? k) eqn:Egt.
+      + (* drop the maximum *)
+        apply Z.gtb_lt in Egt.
+        assert (Hne : ha h1 <> []).
+        { intros E. rewrite E in Hlen1. unfold zlen in Hlen1 at 1. simpl in Hlen1. lia. }
+        destruct (hf_pop 0 rl no_index h1 Hne) as [m [h2 [Epop [Hp2 Hm]]]].
+        rewrite Epop. cbn [rbind snd].
+        destruct (Hm rl_swo Ho1) as [Ho2 Hmax]. clear Hm.
+        assert (Hlen2 : zlen (ha h2) = zlen (ha h)).
+        { pose proof (zlen_perm _ _ Hp2) as E. rewrite zlen_cons in E. lia. }
+        apply (IH h2 (m :: rest)). constructor.
+        * exact Ho2.
+        * (* ha h2 ++ m :: rest ~ seen ++ [x] *)
+          eapply perm_trans; [apply Permutation_sym; apply Permutation_middle|].
+          eapply perm_trans; [apply (Permutation_app_tail rest (Permutation_sym Hp2))|].
+          eapply perm_trans; [apply (Permutation_app_tail rest (Permutation_sym Hp1))|].
+          cbn [app]. eapply perm_trans; [apply perm_skip; exact Hperm|]. apply Permutation_cons_append.
+        * rewrite Hlen2, Hlen, zlen_app. change (zlen [x]) with 1. unfold K in *. lia.
+        * intros r o Hr Ho.
+          (* m is not less than anything in h1 *)
+          assert (Hmge : forall y, In y (ha h1) -> less m y = false).
+          { intros y Hy. exact (Hmax y Hy). }
+          assert (Ho1' : In o (x :: ha h)).
+          { eapply Permutation_in; [apply Permutation_sym; exact Hp1|].
+            eapply Permutation_in; [apply Permutation_sym; exact Hp2|]. right. exact Ho. }
+          assert (Hm1 : In m (x :: ha h)).
+          { eapply Permutation_in; [apply Permutation_sym; exact Hp1|].
+            eapply Permutation_in; [apply Permutation_sym; exact Hp2|]. left. reflexivity. }
+          assert (Ho_h1 : In o (ha h1)).
+          { eapply Permutation_in; [apply Permutation_sym; exact Hp2|]. right. exact Ho. }
+          destruct Hr as [<-|Hr]; [apply Hmge; exact Ho_h1|].
+          destruct (in_dec Z.eq_dec o (ha h)) as [Hoh|Hnoh]; [apply Hmin; assumption|].
+          destruct Ho1' as [<-|Hoh]; [|contradiction].
+          (* o is the new item x, kept; the dropped m is an old item *)
+          destruct Hm1 as [Emx|Hmh].
+          -- exfalso. subst m. apply Hnoh.
+             assert (Hpp : Permutation (ha h) (ha h2)).
+             { apply (Permutation_cons_inv (a := x)). eapply perm_trans; [exact Hp1|exact Hp2]. }
+             eapply Permutation_in; [apply Permutation_sym; exact Hpp|exact Ho].
+          -- apply (sw_incomp less SWO r m x); [apply Hmin; assumption|apply Hmge; exact Ho_h1].
+      + (* keep everything: nothing has been dropped yet *)
+        rewrite Z.gtb_ltb in Egt. apply Z.ltb_ge in Egt.
+        assert (Hrest : rest = []).
+        { destruct rest as [|r0 rest']; [reflexivity|]. exfalso.
+          rewrite zlen_cons in Hseen. pose proof (zlen_nonneg rest'). unfold K in *. lia. }
+        subst rest.
+        apply (IH h1 []). constructor.
+        * exact Ho1.
+        * rewrite app_nil_r in *. eapply perm_trans; [apply Permutation_sym; exact Hp1|].
+          eapply perm_trans; [apply perm_skip; exact Hperm|]. apply Permutation_cons_append.
+        * rewrite Hlen1, zlen_app. change (zlen [x]) with 1. unfold K in *. lia.
+        * intros r o [].
+  Qed.
+
+  Lemma pop_n_spec : forall n (h : zheap_), length (ha h) = n -> heap_ordered rl (ha h) ->
+      exists l, pop_n less n h = Ok l /\ Permutation l (ha h) /\
+                StronglySorted (fun a b => less a b = false) l.
+  Proof.
+    induction n as [|n IH]; intros h Hn Hord.
+    - exists []. split; [reflexivity|]. destruct (ha h); [|discriminate]. split; constructor.
+    - cbn [pop_n].
+      assert (Hne : ha h <> []) by (destruct (ha h); [discriminate|congruence]).
+      destruct (hf_pop 0 rl no_index h Hne) as [m [h2 [Epop [Hp Hm]]]].
+      fold rl. rewrite Epop. cbn [rbind snd fst].
+      destruct (Hm rl_swo Hord) as [Ho2 Hmax].
+      assert (Hn2 : length (ha h2) = n).
+      { apply Permutation_length in Hp. cbn [length] in Hp. lia. }
+      destruct (IH h2 Hn2 Ho2) as [l [El [Hpl Hsl]]].
+      rewrite El. cbn [rbind]. exists (m :: l). split; [reflexivity|]. split.
+      + eapply perm_trans; [apply perm_skip; exact Hpl|apply Permutation_sym; exact Hp].
+      + constructor; [exact Hsl|]. rewrite Forall_forall. intros y Hy.
+        apply (Hmax y). eapply Permutation_in; [apply Permutation_sym; exact Hp|].
+        right. eapply Permutation_in; [exact Hpl|exact Hy].
+  Qed.
+
+  Theorem min_k_spec_ : forall items,
+    exists out rest, min_k less items k = Ok out /\
+                zlen out = Z.min (Z.max k 0) (zlen items) /\
+                nondecreasing less out /\
+                Permutation (out ++ rest) items /\
+                (forall o r, In o out -> In r rest -> less r o = false).
+  Proof.
+    intros items. unfold min_k.
+    destruct (hf_new rl no_index (@nil Z) tt) as [h0 [Enew [Hp0 Ho0]]].
+    fold rl. rewrite Enew. cbn [rbind].
+    apply Permutation_nil in Hp0.
+    assert (Hinv0 : kinv h0 [] []).
+    { constructor.
+      - apply Ho0. exact rl_swo.
+      - rewrite Hp0. apply Permutation_refl.
+      - rewrite Hp0. unfold zlen; simpl. unfold K. lia.
+      - intros r o []. }
+    destruct (mink_loop_spec items h0 [] [] Hinv0) as [h [rest [Eloop [Hord Hperm Hlen Hmin]]]].
+    rewrite Eloop. cbn [rbind]. cbn [app] in Hperm, Hlen.
+    destruct (pop_n_spec (length (ha h)) h eq_refl Hord) as [l [El [Hpl Hsl]]].
+    rewrite El. cbn [rbind]. exists (rev l), rest. split; [reflexivity|].
+    assert (Hprev : Permutation (rev l) (ha h)).
+    { eapply perm_trans; [apply Permutation_sym; apply Permutation_rev|exact Hpl]. }
+    split; [|split; [|split]].
+    - rewrite (zlen_perm _ _ Hprev). exact Hlen.
+    - unfold nondecreasing. apply SS_rev. exact Hsl.
+    - eapply perm_trans; [apply Permutation_app_tail; exact Hprev|exact Hperm].
+    - intros o r Ho Hr. apply Hmin; [exact Hr|]. eapply Permutation_in; [exact Hprev|exact Ho].
+  Qed.
+End MinK.
+
+Theorem min_k_spec : forall less items k, strict_weak less ->
+    exists out rest, min_k less items k = Ok out /\
+                zlen out = Z.min (Z.max k 0) (zlen items) /\
+                nondecreasing less out /\
+                Permutation (out ++ rest) items /\
+                (forall o r, In o out -> In r rest -> less r o = false).
+Proof. intros less items k SWO. apply min_k_spec_. exact SWO. Qed.
+
+Example min_k_runs :
+  let less := fun a b => Z.quot a 10 <? Z.quot b 10 in
+  (min_k less [50; 31; 90; 12; 70; 35] 3, min_k less [5; 3] (-1), min_k less [5; 3] 7, min_k less [] 2)
+  = (Ok [12; 31; 35], Ok [], Ok [3; 5], Ok []).
+Proof. vm_compute. reflexivity. Qed.
